@@ -4,7 +4,7 @@
 (*                                                                         *)
 (* A Go error value built from the standard network error types is a      *)
 (* CHAIN of layers, outermost first: zero or more wrappers (OpError,      *)
-(* url.Error, fmt.Errorf("%w")) around one leaf.  Every layer carries     *)
+(* url.Error, fmt.Errorf("%w"), os.SyscallError) around one leaf.  Every layer carries     *)
 (* sensitive ATOMS (host, IP, DNS server, URL ...) that its Error() text  *)
 (* prints.  Elide(chain) is the set of atoms that survive in the text     *)
 (* ElideError returns in safe mode; the property is that it is empty.     *)
@@ -28,7 +28,9 @@ Leaves   == { [k |-> "Plain",       src |-> FALSE, dst |-> FALSE, cause |-> FALS
               [k |-> "UnknownNet",  src |-> FALSE, dst |-> FALSE, cause |-> FALSE] }
 Wrappers == { [k |-> "Op",   src |-> s, dst |-> d, cause |-> FALSE] : s, d \in BOOLEAN } \cup
             { [k |-> "Url",  src |-> FALSE, dst |-> FALSE, cause |-> FALSE],
-              [k |-> "Wrap", src |-> FALSE, dst |-> FALSE, cause |-> FALSE] }
+              [k |-> "Wrap", src |-> FALSE, dst |-> FALSE, cause |-> FALSE],
+              \* os.SyscallError around ANY error (it unwraps, carries no address of its own, and is not a net.Error)
+              [k |-> "SysWrap", src |-> FALSE, dst |-> FALSE, cause |-> FALSE] }
 
 RECURSIVE WrapSeqs(_)
 WrapSeqs(n) == IF n = 0 THEN {<<>>}
